@@ -80,6 +80,8 @@ def make_overlay(ctx):
             rel = os.path.relpath(src, OVERLAY_SRC)
             dst = os.path.join(REPO, rel)
             if os.path.exists(dst):
+                if os.environ.get("VERIF_COVER") and open(dst, "rb").read() == open(src, "rb").read():
+                    continue          # coverage mode (tools/impl_coverage.py): the scratch copy already holds the harness file
                 raise MachineryError("overlay would shadow repository file %s" % dst)
             rep[dst] = src
     p = os.path.join(ctx.scratch, "overlay.json")
@@ -100,6 +102,9 @@ def go_build_tests(ctx, pkgs, race=False):
         cmd = [go_bin(), "test", "-c", "-overlay", ov, "-tags", "default_build,verif", "-vet=off"]
         if race:
             cmd.append("-race")
+        if os.environ.get("VERIF_COVER"):
+            # opt-in (tools/impl_coverage.py): statement coverage of the product code under the harness runs
+            cmd += ["-cover", "-covermode=atomic", "-coverpkg=" + os.environ.get("VERIF_COVERPKG", "./...")]
         cmd += ["-o", dst, "./" + pkg.strip("./")]
         t = time.time()
         r = subprocess.run(cmd, cwd=REPO, env=go_env(), stdout=subprocess.PIPE, stderr=subprocess.STDOUT, text=True)
@@ -117,6 +122,9 @@ def run_test_bin(ctx, binary, run, env=None, timeout=600, netns=False, cwd=None,
     e.setdefault("VERIF_SEED", str(ctx.seed))
     e.setdefault("VERIF_TIER", ctx.tier)
     cmd = [binary, "-test.run", "^%s$" % run, "-test.count=1", "-test.timeout", "%ds" % timeout, "-test.v"] + list(args)
+    if os.environ.get("VERIF_COVER"):
+        os.makedirs(os.environ["VERIF_COVER"], exist_ok=True)
+        cmd.append("-test.coverprofile=%s" % os.path.join(os.environ["VERIF_COVER"], "%s-%s-%s.out" % (ctx.prop, run, os.urandom(6).hex())))
     if netns:
         cmd = ["unshare", "-n", "--"] + cmd
     try:
